@@ -43,7 +43,7 @@ var stubIO = []string{"io.Reader / io.Writer arguments (SimReader, SimWriter)", 
 
 func registry() map[string]*propSpec {
 	return map[string]*propSpec{
-		"C03": {Scenario: "dec-arshal", Make: func() scen.Scenario { return &scen.DecArshal{Mode: "c03"} }, QuickRuns: 200000, ThorRuns: 10000000,
+		"C03": {Scenario: "dec-arshal", Make: func() scen.Scenario { return &scen.DecArshal{Mode: "c03"} }, QuickRuns: 200000, ThorRuns: 16000000,
 			Rule: "each run = a stream of 1-6 valid duplicate-free texts whose strings come from small families colliding in the decoder's string-interning cache, decoded into any / map[string]any / []any / a named empty interface through UnmarshalRead (chunked reader) or successive UnmarshalDecode calls on one Decoder (cache history across values), after 0-2 earlier pooled calls (cache history across calls), with semantics-preserving options that switch the internal route (AllowDuplicateNames on duplicate-free input; an Unmarshalers function for *any that declines); all routes must agree with each other, with Unmarshal of each value span, and with the reference decoder (RFC 8259 unescaping, strconv-rounded float64, overflow is an error). distinct = hash of (target, route, buffer class, cuts by lexeme class, input size class); non-trivial = a chunked/short read landed in the run.",
 			Real: realAll, Stub: stubIO},
 		"C20": {Scenario: "all", Make: func() scen.Scenario {
@@ -54,43 +54,43 @@ func registry() map[string]*propSpec {
 				{W: 4, S: &scen.ArshalMarshal{Mode: "c02"}}, {W: 2, S: &scen.Dispatch{}}, {W: 1, S: &scen.MergeChain{}}, {W: 2, S: &scen.Scope{}},
 				{W: 1, S: &scen.Hist{}},
 			}}
-		}, QuickRuns: 60000, ThorRuns: 6000000, Chunk: 1500, ResetCache: true,
+		}, QuickRuns: 60000, ThorRuns: 1500000, Chunk: 1500, ResetCache: true,
 			Rule: "each run = either a depth-boundary run (a tower nested 9998..10002 deep in a drawn array/object mix with a drawn leaf incl. empty containers, pushed through one of 25 paths: ReadToken/ReadValue/SkipValue loops and token/value splits over a chunked reader, IsValid, Format, Compact, Indent, Canonicalize, WriteToken, WriteValue and token/value splits, Marshal/MarshalWrite/MarshalEncode of deep Go values through []any, map[string]any, pointer chains and recursive slice/map types incl. a peer that re-enters Marshal half-way down, Unmarshal/UnmarshalRead into any and into a linked struct; or a cyclic Go value through pointer, map, slice, interface, pointer-to-pointer (child process), struct ring, deep-then-cycle) with the oracle '10000 accepted, 10001 refused with an error, cycles yield an error'; or one run of any other scenario of this framework (dec, enc, arshal, dispatch, merge, scope, hist) with only the panic/livelock monitor armed. distinct = hash of the run's plan signature; all depth runs count as non-trivial.",
 			Real: realAll, Stub: append([]string{"user marshal methods (scripted peers)"}, stubIO...)},
 		"C05": {Scenario: "dec", Make: func() scen.Scenario {
 			return &scen.Multi{Parts: []scen.Part{{W: 3, S: &scen.Dec{Mode: "c05"}}, {W: 1, S: &scen.DecArshal{Mode: "c05"}}}}
-		}, QuickRuns: 240000, ThorRuns: 24000000,
+		}, QuickRuns: 240000, ThorRuns: 16000000,
 			Rule: "each run = 1-3 episodes on one Decoder (Reset between): generated/mutated JSON stream x option set x program over ReadToken/ReadValue/SkipValue/PeekKind x read schedule (1-byte, cuts, random sizes, empty reads, data+EOF, bufio, bytes.Buffer) x transient read faults x optional hand-off; compared call by call with the same program on the whole slice. distinct = distinct hash of (reader kind, buffer-capacity class, cut positions by lexeme class, fault counts, op 3-grams, outcome); non-trivial = a short/empty/faulty read, Reset or hand-off landed inside the run.",
 			Real: realAll, Stub: stubIO},
 		"C07": {Scenario: "enc+arshal", Make: func() scen.Scenario {
 			return &scen.Multi{Parts: []scen.Part{{W: 3, S: &scen.Enc{Mode: "c07"}}, {W: 2, S: &scen.ArshalMarshal{Mode: "c07"}}}}
-		}, QuickRuns: 200000, ThorRuns: 20000000, Chunk: 12500, ResetCache: true,
+		}, QuickRuns: 200000, ThorRuns: 12000000, Chunk: 12500, ResetCache: true,
 			Rule: "each run = a grammatical program of WriteToken/WriteValue calls derived from generated JSON texts (sizes straddling the 64..4096-byte buffer thresholds) x option set x writer kind x write-fault script (short writes, error after full write, zero-progress error, disk full at byte k; call-indexed and offset-keyed); compared call by call with the fault-free twin; at the end faults stop, containers are closed and a sentinel is written: the writer must hold exactly the fault-free bytes. distinct = hash of (fault counts by kind, largest write, output size class, number of calls, options); non-trivial = at least one write fault fired or the bytes.Buffer path was taken.",
 			Real: realAll, Stub: stubIO},
-		"C02": {Scenario: "arshal", Make: func() scen.Scenario { return &scen.ArshalMarshal{Mode: "c02"} }, QuickRuns: 160000, ThorRuns: 8000000, Chunk: 10000, ResetCache: true,
+		"C02": {Scenario: "arshal", Make: func() scen.Scenario { return &scen.ArshalMarshal{Mode: "c02"} }, QuickRuns: 160000, ThorRuns: 16000000, Chunk: 10000, ResetCache: true,
 			Rule: "each run = one Go value of a reflect-built random type (scalars incl. NaN/Inf and ill-formed strings, bytes, raw values holding arbitrary bytes, pointers, slices, arrays, maps with string/int/float/bool/TextMarshaler keys, structs with random tags incl. omitempty/omitzero/string/embed and >64 fields) with scripted peers (MarshalJSONTo / MarshalJSON / MarshalText / AppendText methods on value and pointer receivers, MarshalToFunc / MarshalFunc) executing drawn behaviours (one value, error, ErrUnsupported before/after use, zero or two values, open container, close the parent container, malformed bytes, re-entry, Reset, panic, ignored rejected calls) x option set, marshalled through Marshal, MarshalWrite (faulty writer) and MarshalEncode (inside a token context); nil error => output is exactly one value valid under the effective options by the independent recognizer. distinct = hash of (type, behaviour kinds present, output size class, context, options); non-trivial = a misbehaving peer, a write fault or a panic landed in the run.",
 			Real: realAll, Stub: append([]string{"user marshal methods and functions (scripted peers)"}, stubIO...)},
-		"C06": {Scenario: "enc", Make: func() scen.Scenario { return &scen.Enc{Mode: "c06"} }, QuickRuns: 200000, ThorRuns: 20000000,
+		"C06": {Scenario: "enc", Make: func() scen.Scenario { return &scen.Enc{Mode: "c06"} }, QuickRuns: 200000, ThorRuns: 10000000,
 			Rule: "each run = a sequence of WriteToken/WriteValue calls drawn legal with p=0.7 given the reference push-down model (all token kinds, ill-formed strings, NaN/Inf, zero token, raw values valid/truncated/duplicate-bearing/garbage, deep mode 9998..10001) x option set; every call's verdict vs the documented grammar, observers after every call vs the model, rejected calls must not move observers, twin run with the rejected calls removed must match, delivered bytes at depth 0 vs the reference serializer. distinct = hash of (call 2-grams, number of rejected calls, final depth, options); non-trivial = at least one rejected call.",
 			Real: realAll, Stub: stubIO},
-		"C14": {Scenario: "arshal-merge", Make: func() scen.Scenario { return &scen.MergeChain{} }, QuickRuns: 300000, ThorRuns: 15000000, Chunk: 10000, ResetCache: true,
+		"C14": {Scenario: "arshal-merge", Make: func() scen.Scenario { return &scen.MergeChain{} }, QuickRuns: 300000, ThorRuns: 12000000, Chunk: 10000, ResetCache: true,
 			Rule: "each run = a reflect-built merge-capable type (structs, maps with string/int keys, pointers, slices, arrays, interfaces, scalars, byte slices/arrays; depth <= 4) and a chain of 2-4 JSON texts fitted to it with nulls, missing and unknown members (optionally short arrays under UnmarshalArrayFromAnyLength), applied to one long-lived value by separate Unmarshal calls and by successive UnmarshalDecode calls over one chunked stream; whenever every step succeeds the result must deep-equal Unmarshal(merge(j1..jk)) into a zero value, merge being the recursive object union computed by the reference (knows nothing about Go kinds). distinct = hash of (type, chain length, merged text); non-trivial = chain of >= 3 texts or a chunked read landed.",
 			Real: realAll, Stub: stubIO},
-		"C19": {Scenario: "scope", Make: func() scen.Scenario { return &scen.Scope{} }, QuickRuns: 200000, ThorRuns: 10000000, ResetCache: false,
+		"C19": {Scenario: "scope", Make: func() scen.Scenario { return &scen.Scope{} }, QuickRuns: 200000, ThorRuns: 24000000, ResetCache: false,
 			Rule: "each run = a user-owned Encoder or Decoder with 0-2 coder-level options, inside an array or object, and 2-9 items: tokens and MarshalEncode/UnmarshalDecode calls with 0-3 per-call options (semantic, formatting, duplicate/UTF-8, marshaler/unmarshaler functions, v1 options) that are made to fail by a write/read fault, a peer error or panic, a conversion error, or a refused option change; a snapshot of GetOption over every public option on coder.Options() must be identical before and after each call and equal to the coder's own; successful calls must have used coder+call options (size of the value equals Marshal's); a JoinOptions snapshot taken inside a callback must not change afterwards. Only this call-scoping clause of C19 is decided by simulation; two pure clauses (a later false option wins; DefaultOptionsV2 cancels v1 options) are sampled as a by-product. distinct = hash of (side, coder options, items with their call options); non-trivial = a call failed.",
 			Real: realAll, Stub: append([]string{"user marshal methods (scripted peers)"}, stubIO...)},
-		"C17": {Scenario: "arshal-dispatch", Make: func() scen.Scenario { return &scen.Dispatch{} }, QuickRuns: 300000, ThorRuns: 20000000, ResetCache: true,
+		"C17": {Scenario: "arshal-dispatch", Make: func() scen.Scenario { return &scen.Dispatch{} }, QuickRuns: 300000, ThorRuns: 40000000, ResetCache: true,
 			Rule: "each run = one of 81 generated marshal method-set types ({absent,value,pointer receiver} x {MarshalJSONTo,MarshalJSON,AppendText,MarshalText}) or 27 unmarshal method-set types x position kind (top, pointer, field, non-addressable field, slice/array element, map value, map key, inside interface, pointer field, nil pointer) x 0-3 option-supplied functions of interface type (MarshalToFunc/MarshalFunc, UnmarshalFromFunc/UnmarshalFunc, flat or nested Join) x a behaviour per candidate (ok, ErrUnsupported before/after use, error, zero/two values, open container, Reset) x a cache history of 0-4 earlier calls; the peers log which user code ran; a rule model of the documented order predicts the log, success/failure and the representation; inside the call the caller's options must be visible and Reset must panic. distinct = hash of (side, method set, position, functions, warm-up, behaviours); non-trivial = a misbehaving candidate or a warm cache.",
 			Real: realAll, Stub: []string{"user marshal/unmarshal methods and functions (generated peers interpreting a scripted behaviour)", "arshaler cache contents (reset per run, then warmed in a drawn order)"}},
-		"C18": {Scenario: "hist", Make: func() scen.Scenario { return &scen.Hist{} }, QuickRuns: 12000, ThorRuns: 1200000, Chunk: 400, ResetCache: true,
+		"C18": {Scenario: "hist", Make: func() scen.Scenario { return &scen.Hist{} }, QuickRuns: 12000, ThorRuns: 300000, Chunk: 400, ResetCache: true,
 			Rule: "each run = a pool of 6-18 (thorough: up to 43) heterogeneous calls (Marshal with adversarial values and panicking/erroring/re-entering peers, MarshalWrite with offset-keyed write faults, Unmarshal/UnmarshalRead of valid and invalid texts into 15 target types with offset-keyed read cuts and faults, Format/Compact/Indent/Canonicalize/IsValid/AppendFormat, v1 calls, user-owned Encoder programs incl. reuse after Reset, 1 MiB documents, >1000-deep values that switch cycle tracking on), executed in a drawn order as 1-16 cooperative tasks that switch at reader/writer/callback seams, with pool faults (explicit double GC, drain+permute, drop, arshaler-cache reset) at drawn steps; every outcome compared with the same call alone from pristine pools and caches; returned byte slices re-checked at the end; inputs overwritten after Unmarshal; pooled objects checked for duplicates and for being in use. distinct = hash of (context-switch sequence, task count, call kinds, pool faults); non-trivial = tasks really interleaved or a pool fault fired.",
 			Real: realAll, Stub: append([]string{"user marshal methods and functions (scripted peers)", "task scheduling (cooperative, one task at a time, switch points at seams)"}, stubIO...)},
 		"C16": {Scenario: "dec+enc", Make: func() scen.Scenario {
 			return &scen.Multi{Parts: []scen.Part{{W: 3, S: &scen.Dec{Mode: "c16"}}, {W: 1, S: &scen.Enc{Mode: "c16"}}}}
-		}, QuickRuns: 200000, ThorRuns: 20000000,
+		}, QuickRuns: 200000, ThorRuns: 12000000,
 			Rule: "dec scenario with the independent reference recognizer armed: observers after every call vs reference push-down model; rejected inputs vs the offset/pointer relation. distinct as for C05; non-trivial = chunked read schedule landed inside the run.",
 			Real: realAll, Stub: stubIO},
-		"C01": {Scenario: "dec", Make: func() scen.Scenario { return &scen.Dec{Mode: "c01"} }, QuickRuns: 200000, ThorRuns: 20000000,
+		"C01": {Scenario: "dec", Make: func() scen.Scenario { return &scen.Dec{Mode: "c01"} }, QuickRuns: 200000, ThorRuns: 8000000,
 			Rule: "dec scenario, mutation-heavy inputs, verdict of token/value/mixed loops over chunked streams vs the independent recognizer. distinct as for C05.",
 			Real: realAll, Stub: stubIO},
 	}
